@@ -209,6 +209,9 @@ func c14GenCLI(r *world.PRNG, seed uint64, i int) *Case {
 		}
 	}
 	AddDecoys(c, r)
+	if r.Chance(1, 5) {
+		AddHardlinkTarget(c, r)
+	}
 	c.Flags = Flags{SkipImport: r.Chance(1, 4), SkipGen: r.Chance(1, 2), Verbose: false}
 	for _, f := range c.Files {
 		c.Targets = append(c.Targets, strings.TrimPrefix(f.Path, ProjDir+"/"))
